@@ -951,8 +951,17 @@ impl LineBuffer {
                 if self.pos == 0 {
                     None
                 } else {
-                    self.next_word_pos(0, At::Start, Word::Big, 1)
-                        .map(|pos| self.buf[pos..self.pos].to_owned())
+                    // same target as `Cmd::Move(Movement::ViFirstPrint)`
+                    let first = if self.buf.starts_with(char::is_whitespace) {
+                        self.next_word_pos(0, At::Start, Word::Big, 1)
+                    } else {
+                        Some(0)
+                    };
+                    match first {
+                        Some(pos) if pos < self.pos => Some(self.buf[pos..self.pos].to_owned()),
+                        Some(pos) if pos > self.pos => Some(self.buf[self.pos..pos].to_owned()),
+                        _ => None,
+                    }
                 }
             }
             Movement::EndOfLine => {
